@@ -83,58 +83,90 @@ def step_matrices(w, zeta, h):
             np.array([float(G2[0]), float(G2[1])]))
 
 
+_CACHE = {}
+
+
+def _cached_step(w, zeta, h):
+    key = (float(w), float(zeta), float(h))
+    r = _CACHE.get(key)
+    if r is None:
+        if len(_CACHE) > 20000:
+            _CACHE.clear()
+        r = _CACHE[key] = step_matrices(*key)
+    return r
+
+
 def simulate(z, h, ws, zetas, u0=None, v0=None, lead_in=False):
     """States of every oscillator for every column.
 
-    z      : (n,) or (n, ncol) base acceleration samples, spacing h
-    ws     : (nf,) natural frequencies in rad/s (0 allowed)
-    zetas  : scalar or (nf,) damping ratios (< 1)
-    u0, v0 : initial state at the first sample, broadcastable to (ncol, nf); default 0
+    z      : (n,) or (n, ncol) base acceleration samples, spacing h; or a batch
+             (B, n, ncol) of records, each with its own oscillator set
+    ws     : (nf,) natural frequencies in rad/s (0 allowed); (B, nf) for a batch
+    zetas  : scalar or same shape as ws (< 1)
+    u0, v0 : initial state at the first sample, broadcastable to (ncol, nf)
+             [(B, ncol, nf) for a batch]; default 0
     lead_in: start from rest one step *before* the record with z = 0 there (the input
              ramps from 0 to z[0] over that step); u0/v0 then apply to that earlier time
 
-    Returns u, v  each (n, ncol, nf).
+    Returns u, v  each (n, ncol, nf)  [(B, n, ncol, nf) for a batch].
     """
     z = np.asarray(z, dtype=float)
+    batch = z.ndim == 3
     if z.ndim == 1:
         z = z[:, None]
-    ws = np.atleast_1d(np.asarray(ws, dtype=float))
+    if not batch:
+        z = z[None]
+    ws = np.asarray(ws, dtype=float)
+    ws = np.atleast_1d(ws)
+    if ws.ndim == 1:
+        ws = np.broadcast_to(ws, (z.shape[0], ws.size))
     zetas = np.broadcast_to(np.asarray(zetas, dtype=float), ws.shape)
-    n, ncol = z.shape
-    nf = ws.size
-    E = np.empty((nf, 2, 2))
-    G1 = np.empty((nf, 2))
-    G2 = np.empty((nf, 2))
-    for i in range(nf):
-        E[i], G1[i], G2[i] = step_matrices(ws[i], zetas[i], h)
+    B, n, ncol = z.shape
+    nf = ws.shape[1]
+    co = np.empty((8, B, 1, nf))
+    for b in range(B):
+        for i in range(nf):
+            E, G1, G2 = _cached_step(ws[b, i], zetas[b, i], h)
+            co[:, b, 0, i] = (E[0, 0], E[0, 1], E[1, 0], E[1, 1],
+                              G1[0], G1[1], G2[0], G2[1])
+    e11, e12, e21, e22, g1u, g1v, g2u, g2v = co
     if lead_in:
-        z = np.vstack([np.zeros((1, ncol)), z])
+        z = np.concatenate([np.zeros((B, 1, ncol)), z], axis=1)
         n += 1
-    u = np.empty((n, ncol, nf))
-    v = np.empty((n, ncol, nf))
-    u[0] = 0.0 if u0 is None else np.broadcast_to(u0, (ncol, nf))
-    v[0] = 0.0 if v0 is None else np.broadcast_to(v0, (ncol, nf))
-    e11, e12, e21, e22 = E[:, 0, 0], E[:, 0, 1], E[:, 1, 0], E[:, 1, 1]
-    g1u, g1v, g2u, g2v = G1[:, 0], G1[:, 1], G2[:, 0], G2[:, 1]
-    dz = np.diff(z, axis=0)
+    u = np.empty((n, B, ncol, nf))
+    v = np.empty((n, B, ncol, nf))
+    u[0] = 0.0 if u0 is None else np.broadcast_to(u0, (B, ncol, nf))
+    v[0] = 0.0 if v0 is None else np.broadcast_to(v0, (B, ncol, nf))
+    zt = np.moveaxis(z, 1, 0)[..., None]          # (n, B, ncol, 1)
+    dz = np.diff(zt, axis=0)
+    fu = g1u * zt[:-1] + g2u * dz                 # forcing terms, (n-1, B, ncol, nf)
+    fv = g1v * zt[:-1] + g2v * dz
     for k in range(n - 1):
-        zk = z[k][:, None]
-        dk = dz[k][:, None]
         uk, vk = u[k], v[k]
-        u[k + 1] = e11 * uk + e12 * vk + g1u * zk + g2u * dk
-        v[k + 1] = e21 * uk + e22 * vk + g1v * zk + g2v * dk
+        u[k + 1] = e11 * uk + e12 * vk + fu[k]
+        v[k + 1] = e21 * uk + e22 * vk + fv[k]
     if lead_in:
-        return u[1:], v[1:]
+        u, v = u[1:], v[1:]
+    u = np.moveaxis(u, 0, 1)
+    v = np.moveaxis(v, 0, 1)
+    if not batch:
+        return u[0], v[0]
     return u, v
 
 
 def responses(z, h, ws, zetas, u, v, which=STYPES):
-    """The six response quantities from the states (shapes n x ncol x nf)."""
+    """The response quantities from the states; shapes as returned by :func:`simulate`."""
     z = np.asarray(z, dtype=float)
     if z.ndim == 1:
         z = z[:, None]
     ws = np.atleast_1d(np.asarray(ws, dtype=float))
     zetas = np.broadcast_to(np.asarray(zetas, dtype=float), ws.shape)
+    if u.ndim == 4:                      # batch: coefficients (B, 1, 1, nf)
+        if ws.ndim == 1:
+            ws = np.broadcast_to(ws, (u.shape[0], ws.size))
+            zetas = np.broadcast_to(zetas, ws.shape)
+        ws = ws[:, None, None, :]
+        zetas = zetas[:, None, None, :]
     c = 2 * zetas * ws
     k = ws * ws
     out = {}
@@ -144,7 +176,7 @@ def responses(z, h, ws, zetas, u, v, which=STYPES):
         elif s == "relvelo":
             out[s] = v.copy()
         elif s == "relacce":
-            out[s] = -z[:, :, None] - c * v - k * u
+            out[s] = -z[..., None] - c * v - k * u
         elif s == "absacce":
             out[s] = -c * v - k * u
         elif s == "pvelo":
